@@ -11,13 +11,21 @@ package trend
 //@ guarantees[C06] "input-close" len(arg(Smma_Compute, 0, 0)) == len(snapshots) && (forall k :: 0 <= k && k < len(snapshots) ==> arg(Smma_Compute, 0, 0)[k] == snapshots[k].Close)
 //@ guarantees[C06] "input-close" len(arg(Smma_Compute, 1, 0)) == len(snapshots) && (forall k :: 0 <= k && k < len(snapshots) ==> arg(Smma_Compute, 1, 0)[k] == snapshots[k].Close)
 //@ guarantees[C06] "input-close" len(arg(Smma_Compute, 2, 0)) == len(snapshots) && (forall k :: 0 <= k && k < len(snapshots) ==> arg(Smma_Compute, 2, 0)[k] == snapshots[k].Close)
-//@ ensures[C05] "len" len(snapshots) >= (max(a.Jaw.Period, max(a.Teeth.Period, a.Lip.Period)) - 1) ==> len(result) == len(snapshots)
+//@ guarantees[C05] "len" len(snapshots) >= (max(a.Jaw.Period, max(a.Teeth.Period, a.Lip.Period)) - 1) ==> len(result) == len(snapshots)
 //@ ensures[C05] "len-short" len(result) >= len(snapshots)
 //@ ensures[C05] "warmup-hold" forall kk :: 0 <= kk && kk < min((max(a.Jaw.Period, max(a.Teeth.Period, a.Lip.Period)) - 1), len(result)) ==> result[kk] == 0
 //@ ensures[C05] "short-hold" len(snapshots) < (max(a.Jaw.Period, max(a.Teeth.Period, a.Lip.Period)) - 1) ==> (forall kk :: 0 <= kk && kk < len(result) ==> result[kk] == 0)
 //@ ensures[C05] "range" forall kk :: 0 <= kk && kk < len(result) ==> 0 - 1 <= result[kk] && result[kk] <= 1
 //@ ensures[C03] consumed(snapshots) == len(snapshots) && closed(result)
 //@ ensures[C04] forall kk :: 0 <= kk && kk < len(result) ==> hor(result, kk) <= hor(snapshots, kk)
+//@ rel[C18] "price" param lam real
+//@ rel[C18] "price" assume lam > 0 && len(second(snapshots)) == len(snapshots) && (forall k :: 0 <= k && k < len(snapshots) ==> pscaled(second(snapshots)[k], snapshots[k], lam))
+//@ rel[C18] "price" use[cond] rma_scale(closingsSplice[0], second(closingsSplice[0]), lam, a.Jaw.Period, _)
+//@ rel[C18] "price" use[cond] rma_scale(closingsSplice[1], second(closingsSplice[1]), lam, a.Teeth.Period, _)
+//@ rel[C18] "price" use[cond] rma_scale(closingsSplice[2], second(closingsSplice[2]), lam, a.Lip.Period, _)
+//@ rel[C18] "price" use forall k :: mul_cmp(lam, lips[k], teeths[k])
+//@ rel[C18] "price" use forall k :: mul_cmp(lam, lips[k], jaws[k])
+//@ rel[C18] "price" ensures len(second(result)) == len(result) && (forall k :: 0 <= k && k < len(result) ==> second(result)[k] == result[k])
 
 //@ func ApoStrategy.Compute
 //@ requires 1 <= a.Apo.FastPeriod && a.Apo.FastPeriod <= a.Apo.SlowPeriod && consumed(snapshots) == 0
@@ -31,6 +39,12 @@ package trend
 //@ ensures[C05] "range" forall kk :: 0 <= kk && kk < len(result) ==> 0 - 1 <= result[kk] && result[kk] <= 1
 //@ ensures[C03] consumed(snapshots) == len(snapshots) && closed(result)
 //@ ensures[C04] forall kk :: 0 <= kk && kk < len(result) ==> hor(result, kk) <= hor(snapshots, kk)
+//@ rel[C18] "price" param lam real
+//@ rel[C18] "price" assume lam > 0 && len(second(snapshots)) == len(snapshots) && (forall k :: 0 <= k && k < len(snapshots) ==> pscaled(second(snapshots)[k], snapshots[k], lam))
+//@ rel[C18] "price" use[cond] ema_scale(closings, second(closings), lam, a.Apo.FastPeriod, 2 / real(a.Apo.FastPeriod + 1), _)
+//@ rel[C18] "price" use[cond] ema_scale(closings, second(closings), lam, a.Apo.SlowPeriod, 2 / real(a.Apo.SlowPeriod + 1), _)
+//@ rel[C18] "price" use forall k :: mul_cmp(lam, emaS(closings, a.Apo.FastPeriod, 2 / real(a.Apo.FastPeriod + 1), k), emaS(closings, a.Apo.SlowPeriod, 2 / real(a.Apo.SlowPeriod + 1), k))
+//@ rel[C18] "price" ensures len(second(result)) == len(result) && (forall k :: 0 <= k && k < len(result) ==> second(result)[k] == result[k])
 
 //@ func AroonStrategy.Compute
 //@ requires a.Aroon.Period >= 1 && consumed(c) == 0
@@ -45,6 +59,11 @@ package trend
 //@ ensures[C05] "range" forall kk :: 0 <= kk && kk < len(result) ==> 0 - 1 <= result[kk] && result[kk] <= 1
 //@ ensures[C03] consumed(c) == len(c) && closed(result)
 //@ ensures[C04] forall kk :: 0 <= kk && kk < len(result) ==> hor(result, kk) <= hor(c, kk)
+//@ rel[C18] "price" param lam real
+//@ rel[C18] "price" assume lam > 0 && len(second(c)) == len(c) && (forall k :: 0 <= k && k < len(c) ==> pscaled(second(c)[k], c[k], lam))
+//@ rel[C18] "price" use[cond] aroonSince_pscale(highs, second(highs), lam, a.Aroon.Period, _)
+//@ rel[C18] "price" use[cond] aroonSince_pscale(lows, second(lows), lam, a.Aroon.Period, _)
+//@ rel[C18] "price" ensures len(second(result)) == len(result) && (forall k :: 0 <= k && k < len(result) ==> second(result)[k] == result[k])
 
 //@ func BopStrategy.Compute
 //@ requires consumed(c) == 0
@@ -61,6 +80,12 @@ package trend
 //@ ensures[C05] "range" forall kk :: 0 <= kk && kk < len(result) ==> 0 - 1 <= result[kk] && result[kk] <= 1
 //@ ensures[C03] consumed(c) == len(c) && closed(result)
 //@ ensures[C04] forall kk :: 0 <= kk && kk < len(result) ==> hor(result, kk) <= hor(c, kk)
+//@ rel[C18] "price" param lam real
+//@ rel[C18] "price" assume lam > 0 && len(second(c)) == len(c) && (forall k :: 0 <= k && k < len(c) ==> pscaled(second(c)[k], c[k], lam))
+//@ rel[C18] "price" use forall k :: mul_lin(lam, closings[k], openings[k])
+//@ rel[C18] "price" use forall k :: mul_lin(lam, highs[k], lows[k])
+//@ rel[C18] "price" use forall k :: ratio_scale(lam, closings[k] - openings[k], highs[k] - lows[k])
+//@ rel[C18] "price" ensures len(second(result)) == len(result) && (forall k :: 0 <= k && k < len(result) && (highs[k] != lows[k]) ==> second(result)[k] == result[k])
 
 //@ func CciStrategy.Compute
 //@ requires t.Cci.Period >= 1 && consumed(c) == 0
@@ -90,6 +115,12 @@ package trend
 //@ ensures[C05] "range" forall kk :: 0 <= kk && kk < len(result) ==> 0 - 1 <= result[kk] && result[kk] <= 1
 //@ ensures[C03] consumed(c) == len(c) && closed(result)
 //@ ensures[C04] forall kk :: 0 <= kk && kk < len(result) ==> hor(result, kk) <= hor(c, kk)
+//@ rel[C18] "price" param lam real
+//@ rel[C18] "price" assume lam > 0 && len(second(c)) == len(c) && (forall k :: 0 <= k && k < len(c) ==> pscaled(second(c)[k], c[k], lam))
+//@ rel[C18] "price" use[cond] demaImpl_pscale(closings[0], second(closings[0]), lam, d.Dema1.Ema1.Period, emam(d.Dema1.Ema1), d.Dema1.Ema2.Period, emam(d.Dema1.Ema2), _)
+//@ rel[C18] "price" use[cond] demaImpl_pscale(closings[1], second(closings[1]), lam, d.Dema2.Ema1.Period, emam(d.Dema2.Ema1), d.Dema2.Ema2.Period, emam(d.Dema2.Ema2), _)
+//@ rel[C18] "price" use forall k :: mul_cmp(lam, demas1[k], demas2[k])
+//@ rel[C18] "price" ensures len(second(result)) == len(result) && (forall k :: 0 <= k && k < len(result) ==> second(result)[k] == result[k])
 
 //@ func EnvelopeStrategy.Compute
 //@ requires consumed(snapshots) == 0
@@ -117,6 +148,12 @@ package trend
 //@ ensures[C05] "range" forall kk :: 0 <= kk && kk < len(result) ==> 0 - 1 <= result[kk] && result[kk] <= 1
 //@ ensures[C03] consumed(c) == len(c) && closed(result)
 //@ ensures[C04] forall kk :: 0 <= kk && kk < len(result) ==> hor(result, kk) <= hor(c, kk)
+//@ rel[C18] "price" param lam real
+//@ rel[C18] "price" assume lam > 0 && len(second(c)) == len(c) && (forall k :: 0 <= k && k < len(c) ==> pscaled(second(c)[k], c[k], lam))
+//@ rel[C18] "price" use[cond] ema_scale(arg(Ema_Compute, 0, 0), second(arg(Ema_Compute, 0, 0)), lam, t.FastEma.Period, emam(t.FastEma), _)
+//@ rel[C18] "price" use[cond] ema_scale(arg(Ema_Compute, 1, 0), second(arg(Ema_Compute, 1, 0)), lam, t.SlowEma.Period, emam(t.SlowEma), _)
+//@ rel[C18] "price" use forall k :: mul_cmp(lam, fastEmas[k], slowEmas[k])
+//@ rel[C18] "price" ensures len(second(result)) == len(result) && (forall k :: 0 <= k && k < len(result) ==> second(result)[k] == result[k])
 
 //@ func KamaStrategy.Compute
 //@ requires k.Kama.ErPeriod >= 1 && consumed(snapshots) == 0
@@ -145,6 +182,18 @@ package trend
 //@ ensures[C05] "range" forall kk :: 0 <= kk && kk < len(result) ==> 0 - 1 <= result[kk] && result[kk] <= 1
 //@ ensures[C03] consumed(c) == len(c) && closed(result)
 //@ ensures[C04] forall kk :: 0 <= kk && kk < len(result) ==> hor(result, kk) <= hor(c, kk)
+//@ rel[C18] "price" param lam real
+//@ rel[C18] "price" assume lam > 0 && len(second(c)) == len(c) && (forall k :: 0 <= k && k < len(c) ==> pscaled(second(c)[k], c[k], lam))
+//@ rel[C18] "price" assume forall j, hi :: 0 <= j && hi == j + kdj.Kdj.MovingMax.Period && hi <= len(c) ==> wmaxS(highs, j, hi) != wminS(lows, j, hi)
+//@ rel[C18] "price" step forall i :: 0 <= i && i < len(c) ==> second(highs)[i] == lam * highs[i] && second(lows)[i] == lam * lows[i] && second(closings)[i] == lam * closings[i]
+//@ rel[C18] "price" use[cond] stochKS_pscale(highs, lows, closings, second(highs), second(lows), second(closings), lam, kdj.Kdj.MovingMax.Period, len(c), _)
+//@ rel[C18] "price" step forall j :: 0 <= j && j + kdj.Kdj.MovingMax.Period <= len(c) ==> stochKS(second(highs), second(lows), second(closings), kdj.Kdj.MovingMax.Period)[j] == stochKS(highs, lows, closings, kdj.Kdj.MovingMax.Period)[j]
+//@ rel[C18] "price" use[cond] smaS_cong(stochKS(highs, lows, closings, kdj.Kdj.MovingMax.Period), stochKS(second(highs), second(lows), second(closings), kdj.Kdj.MovingMax.Period), kdj.Kdj.Sma1.Period, _)
+//@ rel[C18] "price" step forall i :: 0 <= i && i + kdj.Kdj.Sma1.Period + kdj.Kdj.MovingMax.Period - 1 <= len(c) ==> smaS(stochKS(second(highs), second(lows), second(closings), kdj.Kdj.MovingMax.Period), kdj.Kdj.Sma1.Period)[i] == smaS(stochKS(highs, lows, closings, kdj.Kdj.MovingMax.Period), kdj.Kdj.Sma1.Period)[i]
+//@ rel[C18] "price" use[cond] smaS_cong(smaS(stochKS(highs, lows, closings, kdj.Kdj.MovingMax.Period), kdj.Kdj.Sma1.Period), smaS(stochKS(second(highs), second(lows), second(closings), kdj.Kdj.MovingMax.Period), kdj.Kdj.Sma1.Period), kdj.Kdj.Sma2.Period, _)
+//@ rel[C18] "price" step forall i :: 0 <= i && i + kdj.Kdj.Sma2.Period + kdj.Kdj.Sma1.Period + kdj.Kdj.MovingMax.Period - 2 <= len(c) ==> smaS(smaS(stochKS(second(highs), second(lows), second(closings), kdj.Kdj.MovingMax.Period), kdj.Kdj.Sma1.Period), kdj.Kdj.Sma2.Period)[i] == smaS(smaS(stochKS(highs, lows, closings, kdj.Kdj.MovingMax.Period), kdj.Kdj.Sma1.Period), kdj.Kdj.Sma2.Period)[i]
+//@ rel[C18] "price" step len(second(k)) == len(k) && (forall i :: 0 <= i && i < len(k) ==> second(k)[i] == k[i] && second(d)[i] == d[i] && second(j)[i] == j[i])
+//@ rel[C18] "price" ensures len(second(result)) == len(result) && (forall k :: 0 <= k && k < len(result) ==> second(result)[k] == result[k])
 
 //@ func MacdStrategy.Compute
 //@ requires 1 <= m.Macd.Ema1.Period && m.Macd.Ema1.Period <= m.Macd.Ema2.Period && m.Macd.Ema3.Period >= 1 && consumed(snapshots) == 0
@@ -158,6 +207,13 @@ package trend
 //@ ensures[C05] "range" forall kk :: 0 <= kk && kk < len(result) ==> 0 - 1 <= result[kk] && result[kk] <= 1
 //@ ensures[C03] consumed(snapshots) == len(snapshots) && closed(result)
 //@ ensures[C04] forall kk :: 0 <= kk && kk < len(result) ==> hor(result, kk) <= hor(snapshots, kk)
+//@ rel[C18] "price" param lam real
+//@ rel[C18] "price" assume lam > 0 && len(second(snapshots)) == len(snapshots) && (forall k :: 0 <= k && k < len(snapshots) ==> pscaled(second(snapshots)[k], snapshots[k], lam))
+//@ rel[C18] "price" use[cond] macdS_pscale(closings, second(closings), lam, m.Macd.Ema1.Period, emam(m.Macd.Ema1), m.Macd.Ema2.Period, emam(m.Macd.Ema2), _)
+//@ rel[C18] "price" use[cond] macdSignal_pscale(closings, second(closings), lam, m.Macd.Ema1.Period, emam(m.Macd.Ema1), m.Macd.Ema2.Period, emam(m.Macd.Ema2), m.Macd.Ema3.Period, emam(m.Macd.Ema3), _)
+//@ rel[C18] "price" use forall k :: mul_cmp(lam, macds[k], signals[k])
+//@ rel[C18] "price" use forall k :: mul_cmp(lam, macds[k], 0)
+//@ rel[C18] "price" ensures len(second(result)) == len(result) && (forall k :: 0 <= k && k < len(result) ==> second(result)[k] == result[k])
 
 //@ func QstickStrategy.Compute
 //@ requires q.Qstick.Sma.Period >= 1 && consumed(c) == 0
@@ -172,19 +228,31 @@ package trend
 //@ ensures[C05] "range" forall kk :: 0 <= kk && kk < len(result) ==> 0 - 1 <= result[kk] && result[kk] <= 1
 //@ ensures[C03] consumed(c) == len(c) && closed(result)
 //@ ensures[C04] forall kk :: 0 <= kk && kk < len(result) ==> hor(result, kk) <= hor(c, kk)
+//@ rel[C18] "price" param lam real
+//@ rel[C18] "price" assume lam > 0 && len(second(c)) == len(c) && (forall k :: 0 <= k && k < len(c) ==> pscaled(second(c)[k], c[k], lam))
+//@ rel[C18] "price" use forall j :: subS_scale(closings, openings, second(closings), second(openings), lam, j)
+//@ rel[C18] "price" use[cond] smaS_scale(subS(closings, openings), subS(second(closings), second(openings)), lam, q.Qstick.Sma.Period, _)
+//@ rel[C18] "price" use forall k :: mul_cmp(lam, smaS(subS(closings, openings), q.Qstick.Sma.Period)[k], 0)
+//@ rel[C18] "price" ensures len(second(result)) == len(result) && (forall k :: 0 <= k && k < len(result) ==> second(result)[k] == result[k])
 
 // documented warm-up: the slower SMMA, i.e. max(periods)-1
 //@ func SmmaStrategy.Compute
 //@ requires s.ShortSmma.Period >= 1 && s.LongSmma.Period >= 1 && consumed(snapshots) == 0
 //@ guarantees[C06] "input-close" len(arg(Smma_Compute, 0, 0)) == len(snapshots) && (forall k :: 0 <= k && k < len(snapshots) ==> arg(Smma_Compute, 0, 0)[k] == snapshots[k].Close)
 //@ guarantees[C06] "input-close" len(arg(Smma_Compute, 1, 0)) == len(snapshots) && (forall k :: 0 <= k && k < len(snapshots) ==> arg(Smma_Compute, 1, 0)[k] == snapshots[k].Close)
-//@ ensures[C05] "len" len(snapshots) >= (max(s.ShortSmma.Period, s.LongSmma.Period) - 1) ==> len(result) == len(snapshots)
+//@ guarantees[C05] "len" len(snapshots) >= (max(s.ShortSmma.Period, s.LongSmma.Period) - 1) ==> len(result) == len(snapshots)
 //@ ensures[C05] "len-short" len(result) >= len(snapshots)
 //@ ensures[C05] "warmup-hold" forall kk :: 0 <= kk && kk < min((max(s.ShortSmma.Period, s.LongSmma.Period) - 1), len(result)) ==> result[kk] == 0
 //@ ensures[C05] "short-hold" len(snapshots) < (max(s.ShortSmma.Period, s.LongSmma.Period) - 1) ==> (forall kk :: 0 <= kk && kk < len(result) ==> result[kk] == 0)
 //@ ensures[C05] "range" forall kk :: 0 <= kk && kk < len(result) ==> 0 - 1 <= result[kk] && result[kk] <= 1
 //@ ensures[C03] consumed(snapshots) == len(snapshots) && closed(result)
 //@ ensures[C04] forall kk :: 0 <= kk && kk < len(result) ==> hor(result, kk) <= hor(snapshots, kk)
+//@ rel[C18] "price" param lam real
+//@ rel[C18] "price" assume lam > 0 && len(second(snapshots)) == len(snapshots) && (forall k :: 0 <= k && k < len(snapshots) ==> pscaled(second(snapshots)[k], snapshots[k], lam))
+//@ rel[C18] "price" use[cond] rma_scale(closingsSplice[0], second(closingsSplice[0]), lam, s.ShortSmma.Period, _)
+//@ rel[C18] "price" use[cond] rma_scale(closingsSplice[1], second(closingsSplice[1]), lam, s.LongSmma.Period, _)
+//@ rel[C18] "price" use forall k :: mul_cmp(lam, shortSmmas[k], longSmmas[k])
+//@ rel[C18] "price" ensures len(second(result)) == len(result) && (forall k :: 0 <= k && k < len(result) ==> second(result)[k] == result[k])
 
 //@ func TrimaStrategy.Compute
 //@ requires 1 <= t.Short.Period && t.Short.Period <= t.Long.Period && consumed(c) == 0
@@ -199,6 +267,12 @@ package trend
 //@ ensures[C05] "range" forall kk :: 0 <= kk && kk < len(result) ==> 0 - 1 <= result[kk] && result[kk] <= 1
 //@ ensures[C03] consumed(c) == len(c) && closed(result)
 //@ ensures[C04] forall kk :: 0 <= kk && kk < len(result) ==> hor(result, kk) <= hor(c, kk)
+//@ rel[C18] "price" param lam real
+//@ rel[C18] "price" assume lam > 0 && len(second(c)) == len(c) && (forall k :: 0 <= k && k < len(c) ==> pscaled(second(c)[k], c[k], lam))
+//@ rel[C18] "price" use[cond] trimaS_pscale(closings[0], second(closings[0]), lam, t.Short.Period, _)
+//@ rel[C18] "price" use[cond] trimaS_pscale(closings[1], second(closings[1]), lam, t.Long.Period, _)
+//@ rel[C18] "price" use forall k :: mul_cmp(lam, shorts[k], longs[k])
+//@ rel[C18] "price" ensures len(second(result)) == len(result) && (forall k :: 0 <= k && k < len(result) ==> second(result)[k] == result[k])
 
 //@ func TripleMovingAverageCrossoverStrategy.Compute
 //@ requires 1 <= t.FastEma.Period && t.FastEma.Period <= t.MediumEma.Period && t.MediumEma.Period <= t.SlowEma.Period && consumed(c) == 0
@@ -214,6 +288,14 @@ package trend
 //@ ensures[C05] "range" forall kk :: 0 <= kk && kk < len(result) ==> 0 - 1 <= result[kk] && result[kk] <= 1
 //@ ensures[C03] consumed(c) == len(c) && closed(result)
 //@ ensures[C04] forall kk :: 0 <= kk && kk < len(result) ==> hor(result, kk) <= hor(c, kk)
+//@ rel[C18] "price" param lam real
+//@ rel[C18] "price" assume lam > 0 && len(second(c)) == len(c) && (forall k :: 0 <= k && k < len(c) ==> pscaled(second(c)[k], c[k], lam))
+//@ rel[C18] "price" use[cond] ema_scale(arg(Ema_Compute, 0, 0), second(arg(Ema_Compute, 0, 0)), lam, t.FastEma.Period, emam(t.FastEma), _)
+//@ rel[C18] "price" use[cond] ema_scale(arg(Ema_Compute, 1, 0), second(arg(Ema_Compute, 1, 0)), lam, t.MediumEma.Period, emam(t.MediumEma), _)
+//@ rel[C18] "price" use[cond] ema_scale(arg(Ema_Compute, 2, 0), second(arg(Ema_Compute, 2, 0)), lam, t.SlowEma.Period, emam(t.SlowEma), _)
+//@ rel[C18] "price" use forall k :: mul_cmp(lam, fastEmas[k], mediumEmas[k])
+//@ rel[C18] "price" use forall k :: mul_cmp(lam, fastEmas[k], slowEmas[k])
+//@ rel[C18] "price" ensures len(second(result)) == len(result) && (forall k :: 0 <= k && k < len(result) ==> second(result)[k] == result[k])
 
 //@ func TrixStrategy.Compute
 //@ requires t.Trix.Period >= 1 && consumed(snapshots) == 0
@@ -227,6 +309,10 @@ package trend
 //@ ensures[C05] "range" forall kk :: 0 <= kk && kk < len(result) ==> 0 - 1 <= result[kk] && result[kk] <= 1
 //@ ensures[C03] consumed(snapshots) == len(snapshots) && closed(result)
 //@ ensures[C04] forall kk :: 0 <= kk && kk < len(result) ==> hor(result, kk) <= hor(snapshots, kk)
+//@ rel[C18] "price" param lam real
+//@ rel[C18] "price" assume lam > 0 && len(second(snapshots)) == len(snapshots) && (forall k :: 0 <= k && k < len(snapshots) ==> pscaled(second(snapshots)[k], snapshots[k], lam))
+//@ rel[C18] "price" use[cond] trixS_pscale(closings, second(closings), lam, t.Trix.Period, _)
+//@ rel[C18] "price" ensures len(second(result)) == len(result) && (forall k :: 0 <= k && k < len(result) && (k >= 3 * t.Trix.Period - 2 ==> ema3S(closings, t.Trix.Period)[k - (3 * t.Trix.Period - 2)] != 0) ==> second(result)[k] == result[k])
 
 //@ func TsiStrategy.Compute
 //@ requires consumed(snapshots) == 0
@@ -275,7 +361,7 @@ package trend
 //@ func AlligatorStrategy.Report
 //@ requires a.Jaw.Period >= 1 && a.Teeth.Period >= 1 && a.Lip.Period >= 1 && consumed(c) == 0 && (forall k :: 0 <= k && k < len(c) ==> c[k].Close > 0)
 //@ ensures[C14] "column-count" len(result.Columns) == 6
-//@ ensures[C14] "one-value-per-date" len(c) > (max(a.Jaw.Period, max(a.Teeth.Period, a.Lip.Period)) - 1) ==> (forall i :: 0 <= i && i < len(result.Columns) ==> len(col(result.Columns[i])) == len(result.Date))
+//@ guarantees[C14] "one-value-per-date" len(c) > (max(a.Jaw.Period, max(a.Teeth.Period, a.Lip.Period)) - 1) ==> (forall i :: 0 <= i && i < len(result.Columns) ==> len(col(result.Columns[i])) == len(result.Date))
 //@ ensures[C14] "dates" len(c) > (max(a.Jaw.Period, max(a.Teeth.Period, a.Lip.Period)) - 1) ==> len(result.Date) <= len(c) && (forall k :: 0 <= k && k < len(result.Date) ==> result.Date[k] == c[k + len(c) - len(result.Date)].Date)
 //@ ensures[C14] "close" len(c) > (max(a.Jaw.Period, max(a.Teeth.Period, a.Lip.Period)) - 1) ==> (forall k :: 0 <= k && k < len(result.Date) ==> colnum(result.Columns[0])[k] == c[k + len(c) - len(result.Date)].Close)
 //@ ensures[C14] "annotation" len(c) > (max(a.Jaw.Period, max(a.Teeth.Period, a.Lip.Period)) - 1) ==> (forall k :: 0 <= k && k < len(result.Date) ==> colstr(result.Columns[4])[k] == (normS(res(AlligatorStrategy_Compute), k + len(c) - len(result.Date)) == 0 - 1 ? "S" : (normS(res(AlligatorStrategy_Compute), k + len(c) - len(result.Date)) == 1 ? "B" : "")))
@@ -325,7 +411,7 @@ package trend
 //@ ensures[C14] "column-count" len(result.Columns) == 4
 //@ ensures[C14] "one-value-per-date" len(c) > (t.Cci.IdlePeriod()) ==> (forall i :: 0 <= i && i < len(result.Columns) ==> len(col(result.Columns[i])) == len(result.Date))
 //@ ensures[C14] "dates" len(c) > (t.Cci.IdlePeriod()) ==> len(result.Date) <= len(c) && (forall k :: 0 <= k && k < len(result.Date) ==> result.Date[k] == c[k + len(c) - len(result.Date)].Date)
-//@ ensures[C14] "close" len(c) > (t.Cci.IdlePeriod()) ==> (forall k :: 0 <= k && k < len(result.Date) ==> colnum(result.Columns[0])[k] == c[k + len(c) - len(result.Date)].Close)
+//@ guarantees[C14] "close" len(c) > (t.Cci.IdlePeriod()) ==> (forall k :: 0 <= k && k < len(result.Date) ==> colnum(result.Columns[0])[k] == c[k + len(c) - len(result.Date)].Close)
 //@ ensures[C14] "annotation" len(c) > (t.Cci.IdlePeriod()) ==> (forall k :: 0 <= k && k < len(result.Date) ==> colstr(result.Columns[2])[k] == (normS(res(CciStrategy_Compute), k + len(c) - len(result.Date)) == 0 - 1 ? "S" : (normS(res(CciStrategy_Compute), k + len(c) - len(result.Date)) == 1 ? "B" : "")))
 //@ ensures[C14] "outcome" len(c) > (t.Cci.IdlePeriod()) ==> (forall k :: 0 <= k && k < len(result.Date) ==> colnum(result.Columns[3])[k] == res(Outcome)[k + len(c) - len(result.Date)] * 100)
 //@ ensures[C03] consumed(c) == len(c)
@@ -419,7 +505,7 @@ package trend
 //@ func SmmaStrategy.Report
 //@ requires s.ShortSmma.Period >= 1 && s.LongSmma.Period >= 1 && consumed(c) == 0 && (forall k :: 0 <= k && k < len(c) ==> c[k].Close > 0)
 //@ ensures[C14] "column-count" len(result.Columns) == 5
-//@ ensures[C14] "one-value-per-date" len(c) > (max(s.ShortSmma.Period, s.LongSmma.Period) - 1) ==> (forall i :: 0 <= i && i < len(result.Columns) ==> len(col(result.Columns[i])) == len(result.Date))
+//@ guarantees[C14] "one-value-per-date" len(c) > (max(s.ShortSmma.Period, s.LongSmma.Period) - 1) ==> (forall i :: 0 <= i && i < len(result.Columns) ==> len(col(result.Columns[i])) == len(result.Date))
 //@ ensures[C14] "dates" len(c) > (max(s.ShortSmma.Period, s.LongSmma.Period) - 1) ==> len(result.Date) <= len(c) && (forall k :: 0 <= k && k < len(result.Date) ==> result.Date[k] == c[k + len(c) - len(result.Date)].Date)
 //@ ensures[C14] "close" len(c) > (max(s.ShortSmma.Period, s.LongSmma.Period) - 1) ==> (forall k :: 0 <= k && k < len(result.Date) ==> colnum(result.Columns[0])[k] == c[k + len(c) - len(result.Date)].Close)
 //@ ensures[C14] "annotation" len(c) > (max(s.ShortSmma.Period, s.LongSmma.Period) - 1) ==> (forall k :: 0 <= k && k < len(result.Date) ==> colstr(result.Columns[3])[k] == (normS(res(SmmaStrategy_Compute), k + len(c) - len(result.Date)) == 0 - 1 ? "S" : (normS(res(SmmaStrategy_Compute), k + len(c) - len(result.Date)) == 1 ? "B" : "")))
